@@ -245,8 +245,48 @@ impl<'a> Gen<'a> {
         d[pos..pos + 4].copy_from_slice(&(v as u32).to_le_bytes());
         d
     }
+    /// A request of either protocol (supported or unsupported version list, no / this server's / another SRV) that
+    /// carries 1..3 ADDITIONAL known tags at their sorted positions — before, between and after the tags a request
+    /// needs — whose values are plausible values of the needed tags (a version list, an SRV value, nonce-sized bytes).
+    /// (Seeded change C12-r7: a selective decoder paired the i-th wanted tag with the i-th value on the wire.)
+    pub fn extra_tags(&mut self) -> Vec<u8> {
+        const KNOWN: [&[u8; 4]; 18] = [b"SIG\0", b"VER\0", b"SRV\0", b"NONC", b"DELE", b"PATH", b"RADI", b"PUBK", b"MIDP", b"SREP", b"VERS", b"MINT", b"ROOT", b"CERT", b"MAXT", b"INDX", b"ZZZZ", b"PAD\xff"];
+        let ietf = self.r.chance(2, 3);
+        let mut fields: Vec<(&[u8; 4], Vec<u8>)> = vec![];
+        if ietf {
+            let ver = match self.r.below(4) { 0 => vec![1, 0, 0, 0x80], 1 => { let mut v = vec![1, 0, 0, 0x80]; v.extend(VER13); v } _ => VER13.to_vec() };
+            fields.push((b"VER\0", ver));
+            match self.r.below(3) { 0 => {} 1 => fields.push((b"SRV\0", self.srv.clone())), _ => { let s = self.r.bytes(32); fields.push((b"SRV\0", s)) } }
+            fields.push((b"NONC", self.r.bytes(32)));
+        } else {
+            fields.push((b"NONC", self.r.bytes(64)));
+        }
+        let pad_tag: &[u8; 4] = if ietf { b"ZZZZ" } else { b"PAD\xff" };
+        for _ in 0..self.r.range(1, 3) {
+            let t = KNOWN[self.r.below(18) as usize];
+            if t == pad_tag || fields.iter().any(|(x, _)| *x == t) { continue; }
+            let v = match self.r.below(6) {
+                0 => VER13.to_vec(),
+                1 => self.srv.clone(),
+                2 => self.r.bytes(32),
+                3 => self.r.bytes(64),
+                4 => vec![1, 0, 0, 0x80],
+                _ => { let k = 4 * self.r.below(12) as usize; self.r.bytes(k) }
+            };
+            fields.push((t, v));
+        }
+        let used: usize = 8 * (fields.len() + 1) + fields.iter().map(|(_, v)| v.len()).sum::<usize>() + if ietf { 12 } else { 0 };
+        let total = *self.r.pick(&[1024usize, 1200, 1500]);
+        fields.push((pad_tag, vec![0u8; total.saturating_sub(used)]));
+        fields.sort_by_key(|(t, _)| u32::from_le_bytes(**t));
+        let body = enc_msg(&fields);
+        if ietf { frame(&body) } else { body }
+    }
     /// near-valid mutant or junk
     pub fn invalid(&mut self) -> Vec<u8> {
+        if self.r.chance(1, 8) {
+            return self.extra_tags();
+        }
         if self.r.chance(1, 6) {
             let k = self.r.below(Self::DEGENERATE_KINDS as u64) as usize;
             return self.degenerate(k);
